@@ -16,6 +16,11 @@ var nopGrouper = func(al AggregatedLabels, _ ...logql.Label) AggregatedLabels {
 	return al
 }
 
+// allGrouper puts every label set into the same group: it keeps no label.
+var allGrouper = func(al AggregatedLabels, _ ...logql.Label) AggregatedLabels {
+	return al.By()
+}
+
 type rangeAggIterator struct {
 	iter iterators.Iterator[SampledEntry]
 
